@@ -618,6 +618,22 @@ static inline uint16_t HASH_SIG_MASK(uint8_t hash, uint8_t sig)
 # ifdef USE_DTLS
 #  define MAX_FRAGMENTS   16
 #  define PS_MIN_PMTU     256
+#  ifdef USE_STATELESS_SESSION_TICKETS
+/*
+    RFC 5077 3.4: a server may resume from a session ticket without
+    acknowledging it in the ServerHello.  The ChangeCipherSpec that follows
+    the ServerHello is then the first sign of the resumption: it arrives
+    while the client still waits for Certificate (or ServerKeyExchange with
+    a PSK or anonymous suite).  DTLS skips a ChangeCipherSpec that arrives
+    outside the FINISHED state as reordered; this one must not be skipped.
+ */
+#   define DTLS_CCS_SIGNALS_TICKET_RESUMPTION(ssl) \
+    ((ssl)->sid != NULL && \
+     (ssl)->sid->sessionTicketState == SESS_TICKET_STATE_IN_LIMBO && \
+     ((ssl)->hsState == SSL_HS_CERTIFICATE || \
+      ((ssl)->hsState == SSL_HS_SERVER_KEY_EXCHANGE && \
+       ((ssl)->flags & (SSL_FLAGS_PSK_CIPHER | SSL_FLAGS_ANON_CIPHER)))))
+#  endif
 
 typedef struct
 {
